@@ -1278,11 +1278,15 @@ def closure_true_implies(body, rel, is_a, is_b):
     if not defs0:
         return False, "no return value"
     edges, used = edges_implying(body, rel, is_a, is_b)
+    if body.locals[0]["ty"] != "bool":
+        return False, "does not return bool"
+    seen = False
     for (bi, si, k, pay) in defs0:
         if k == "assign" and pay["rv"]["k"] == "use" and pay["rv"]["o"]["k"] == "const":
             if pay["rv"]["o"].get("int") == 1:
                 if not (edges and body.dominated_by_edges(bi, edges)):
                     return False, "a `true` result at %s is not guarded by the comparison" % body.sp(bi, si)
+                seen = True
             continue
         r = _resolve_cmp(body, bi, si, k, pay)
         if r is None:
@@ -1297,4 +1301,7 @@ def closure_true_implies(body, rel, is_a, is_b):
                 ok = True
         if not ok:
             return False, "comparison %s%s at %s does not imply the required relation" % ("!" if neg else "", op, body.sp(site[0], site[1]))
+        seen = True
+    if not seen:
+        return False, "never returns true through the comparison"
     return True, "ok"
